@@ -514,7 +514,7 @@ def rand_quals_step(r, sep=":"):
         items = []
         for _ in range(n):
             items += [k(), v()]
-        return J([r.pick(["tfi", "tfi", "cf"])] + items)
+        return J([r.pick(["tfi", "tfi", "cf", "tfih"])] + items)
     if c == 25:
         return J([r.pick(["eqk", "cmpk"]), str(r.below(3)), hx(r.pick(KEY_UNIVERSE + ["ǅ", KELVIN, "KEY", "İ"]))])
     if c == 26:
@@ -772,6 +772,7 @@ def st_shape(ctx, n, label="shape"):
         s = strings[bits % len(strings)]
         out.append(case("shape %d parse %s" % (bits, hx(s)), "shape-parse", bits=bits, s=s))
         out.append(case("shape %d build %s %s %s" % (bits, hx("Foo"), hx("n"), "-"), "shape-build", bits=bits))
+        out.append(case("shape %d new %s %s" % (bits, hx(["Foo", "foo", "f!", ""][bits % 4]), hx(["n", "", "a/b"][bits % 3])), "shape-build", bits=bits))
     for _ in range(n):
         bits = r.below(512)
         if r.chance(1, 2):
@@ -865,7 +866,17 @@ def st_cmp(ctx, n, shapes, label="cmp"):
         t = rand_tuple(r, ty=ty, plain=r.chance(1, 3))
         s1, _ = spell(r, t)
         m = r.below(6)
-        if m >= 4 and t.quals:
+        if m >= 4 and t.quals and r.chance(1, 2):
+            # one more qualifier whose key sorts after all the others (the qualifier lists are in a prefix relation),
+            # or the last one dropped
+            ks = sorted(k.lower() for k, _ in t.quals)
+            extra = ((ks[-1] if ks else "y") + r.pick(["z", "_z", "9"]))[:12]
+            if extra == "checksum" or not re.match(r"^[a-z0-9._-]+\Z", extra):
+                extra = "zzz9"
+            q2 = list(t.quals) + [(extra, r.pick(["1", "v", "x y"]))]
+            t2 = Tuple(t.ty, list(t.ns), t.name, t.version, q2, list(t.sub), t.cks)
+            s2, _ = spell(r, t2)
+        elif m >= 4 and t.quals:
             # one qualifier key shortened / lengthened by a character (prefix-related keys), same values
             i = r.below(len(t.quals))
             k, v = t.quals[i]
@@ -1019,14 +1030,21 @@ def fault_case(r, kind, shape):
         elif kind == "qual-badkey":
             items.insert(r.below(len(items) + 1), r.pick(BAD_KEY_ITEMS))
         else:
-            # a second non-empty value for an existing non-empty key, in another letter case
+            # a second non-empty value for an existing non-empty key, in another letter case (sometimes with an
+            # empty-valued repeat of the key in between: `a=x&a=&a=y` still gives `a` two non-empty values)
             cand = [it for it in items if not it.endswith("=")]
             if not cand:
                 items.append("dupk=v")
                 cand = ["dupk=v"]
             it = r.pick(cand)
             k = it.split("=", 1)[0]
-            items.insert(r.below(len(items) + 1), flipcase(r, k) + "=" + r.pick(["1", "x", "%41"]))
+            dup = flipcase(r, k) + "=" + r.pick(["1", "x", "%41"])
+            if r.chance(1, 3):
+                i0 = items.index(it)
+                items.insert(i0 + 1, flipcase(r, k) + "=")
+                items.insert(i0 + 2 + r.below(len(items) - i0 - 1), dup)
+            else:
+                items.insert(r.below(len(items) + 1), dup)
         return assemble(P), "InvalidQualifier", kind
     if kind == "utf8":
         slots = [("name", 0)] + [("ns", i) for i in range(len(t.ns))] + ([("version", 0)] if t.version is not None else []) \
